@@ -560,6 +560,92 @@ Proof.
   rewrite join_loop_split. cbn [app]. rewrite run_cur_ctx by assumption. reflexivity.
 Qed.
 
+(* ================================================================ trailing whitespace does not change a flushed line *)
+Lemma trim_start_ws_prefix : forall x y, all_ws x = true -> trim_start (x ++ y) = trim_start y.
+Proof.
+  induction x as [|c r IH]; intros y H; [reflexivity|]. cbn [all_ws forallb] in H. apply andb_prop in H as [Hc Hr].
+  cbn [app trim_start]. rewrite Hc. apply IH. exact Hr.
+Qed.
+
+Lemma trim_end_ws_suffix : forall a w, all_ws w = true -> trim_end (a ++ w) = trim_end a.
+Proof.
+  intros a w H. unfold trim_end. rewrite rev_app_distr, trim_start_ws_prefix; [reflexivity|]. rewrite all_ws_rev. exact H.
+Qed.
+
+Lemma split_floor_inside : forall a b n, n < byte_len a ->
+  split_floor (a ++ b) n = (fst (split_floor a n), snd (split_floor a n) ++ b).
+Proof.
+  induction a as [|c r IH]; intros b n H; [cbn in H; lia|].
+  cbn [app split_floor byte_len] in *. destruct (width_utf8 c <=? n) eqn:E.
+  - apply Nat.leb_le in E. rewrite IH by lia. destruct (split_floor r (n - width_utf8 c)). reflexivity.
+  - reflexivity.
+Qed.
+
+Lemma split_floor_beyond : forall a b n, byte_len a <= n ->
+  split_floor (a ++ b) n = (a ++ fst (split_floor b (n - byte_len a)), snd (split_floor b (n - byte_len a))).
+Proof.
+  induction a as [|c r IH]; intros b n H.
+  - cbn [app byte_len]. rewrite Nat.sub_0_r. destruct (split_floor b n); reflexivity.
+  - cbn [app split_floor byte_len] in *.
+    assert (E : (width_utf8 c <=? n) = true) by (apply Nat.leb_le; lia). rewrite E.
+    rewrite IH by lia. replace (n - width_utf8 c - byte_len r) with (n - (width_utf8 c + byte_len r)) by lia.
+    destruct (split_floor b (n - (width_utf8 c + byte_len r))). reflexivity.
+Qed.
+
+(* flushing `line ++ w` with w all whitespace (and nothing else changed) gives the same state as flushing `line` *)
+Lemma flush_ws_suffix : forall o l i h p out a b c w, all_ws w = true ->
+  flush_line o (mkJ (l ++ w) i h p out a b c) = flush_line o (mkJ l i h p out a b c).
+Proof.
+  intros o l i h p out a b c w Hw. unfold flush_line.
+  cbn [j_line j_indent j_had j_prev j_out j_has_label j_has_code j_had_label].
+  rewrite all_ws_app, Hw, andb_true_r.
+  destruct (all_ws l) eqn:El.
+  - destruct (negb h && negb c && (p =? 0)); [|reflexivity].
+    rewrite !trim_end_all_ws; [reflexivity | |]; rewrite ?all_ws_app, ?all_ws_pad_nil, ?El, ?Hw; reflexivity.
+  - set (col := o_label_margin o + o_code_margin o).
+    destruct (col <? byte_len l) eqn:E1.
+    + apply Nat.ltb_lt in E1.
+      assert (E2 : (col <? byte_len (l ++ w)) = true) by (apply Nat.ltb_lt; rewrite byte_len_app; lia).
+      rewrite E2, split_floor_inside by exact E1.
+      destruct (split_floor l col) as [lc cm]. cbn [fst snd].
+      destruct (all_ws lc).
+      * f_equal. f_equal. rewrite !app_assoc. apply trim_end_ws_suffix. exact Hw.
+      * f_equal. f_equal. rewrite !app_assoc. apply trim_end_ws_suffix. exact Hw.
+    + apply Nat.ltb_ge in E1.
+      destruct (col <? byte_len (l ++ w)) eqn:E2.
+      * rewrite split_floor_beyond by exact E1.
+        destruct (split_floor w (col - byte_len l)) as [x y]. cbn [fst snd].
+        rewrite all_ws_app, El. cbn [andb].
+        f_equal. f_equal. rewrite !app_assoc. apply trim_end_ws_suffix. exact Hw.
+      * f_equal. f_equal. rewrite !app_assoc. apply trim_end_ws_suffix. exact Hw.
+Qed.
+
+(* a piece without line break as the last piece: appended, then flushed *)
+Lemma jp_last_noflush : forall o ty e st p, contains_nl p = false ->
+  join_piece o ty e true st p = flush_line o (join_piece o ty e false st p).
+Proof.
+  intros o ty e st p Hnl. unfold join_piece.
+  destruct ty as [[|]|].
+  - destruct (o_label_margin o <? byte_len (j_line st)); [rewrite Hnl; reflexivity|].
+    destruct (o_label_alignment o); rewrite Hnl; reflexivity.
+  - destruct e; rewrite Hnl; reflexivity.
+  - rewrite (text_eqb_nlfree p Hnl). cbn [andb]. rewrite Hnl. reflexivity.
+Qed.
+
+(* the final newline chunk behind a line that the first run flushed because its last chunk was the last one *)
+Lemma final_nl_after_flush : forall o A, j_line A <> [] -> j_indent A <> None ->
+  join_chunk o nlc true true A = flush_line o A.
+Proof.
+  intros o A Hl Hi. rewrite join_chunk_nlc, set_indent_some by exact Hi. unfold join_piece.
+  destruct (text_eqb [NL] [NL] && negb match j_line A with [] => true | _ :: _ => false end && (byte_len (j_line A) <=? o_label_margin o)) eqn:Eig.
+  - cbn [negb andb orb]. reflexivity.
+  - replace (contains_nl [NL]) with true by reflexivity. cbn [negb andb orb].
+    replace (all_ws [NL]) with true by reflexivity. cbn [negb]. rewrite orb_false_r.
+    destruct A as [l i h p out a b c]. unfold with_line. cbn [j_line j_indent j_had j_prev j_out j_has_label j_has_code j_had_label].
+    unfold pad_right. rewrite <- app_assoc. apply flush_ws_suffix.
+    rewrite all_ws_app, all_ws_spaces. reflexivity.
+Qed.
+
 (* ================================================================ the last chunk *)
 Lemma nl_last_irrelevant : forall o e S, clean (join_chunk o nlc e false S) ->
   join_chunk o nlc e true S = join_chunk o nlc e false S.
@@ -665,6 +751,60 @@ Proof.
       destruct Ht as (_&_&_&Ho). destruct HtailX as (_&_&_&Ho'). destruct Htail0 as (_&_&_&Ho''). congruence.
 Qed.
 
+Lemma final_step_nlfree : forall o f r, Inv o r -> stable_chunk f = true -> contains_nl (c_str f) = false -> pending r f ->
+  let rf := rstep o f true true r in
+  Forall wf_group (q_groups rf) /\
+  ((exists g, q_groups rf = q_groups r ++ [g] /\
+              join_chunk o nlc true true (run_cur o g (run_groups o (q_groups r) j_init)) = q_st rf) \/
+   (q_groups rf = q_groups r /\ j_out (q_st rf) = j_out (run_groups o (q_groups r) j_init))).
+Proof.
+  intros o c r [Hrep Hclean Htail Hind Hcur Hopen Hgroups Hwide] Hst Enl Hpend. unfold pending in Hpend.
+  destruct (stable_parts c Hst) as (Hne & Htyped & Hplain).
+  remember (q_st r) as st eqn:Est.
+  remember (set_indent st (c_indent c)) as st0 eqn:Est0.
+  destruct c as [ty ind p]. cbn [c_ty c_indent c_str] in *.
+  unfold is_nl_chunk in Hpend. cbn [c_str] in Hpend.
+  assert (Htail0 : tail_eq (run_groups o (q_groups r) j_init) st0).
+  { eapply tail_eq_trans; [exact Htail|]. subst st0. apply tail_set_indent. }
+  unfold rstep, rechunk_piece2. cbn [q_st q_cur q_groups c_ty c_indent c_str]. rewrite <- Est, <- Est0.
+  rewrite orb_true_r.
+  assert (Eig : is_ignored o (mkChunk ty ind p) st0 p = false).
+  { unfold is_ignored. cbn [c_ty]. destruct ty; [reflexivity|]. rewrite (text_eqb_nlfree p Enl). reflexivity. }
+  rewrite Eig.
+  assert (Hstrip : strip_nl p = p) by (apply strip_nl_id; exact Enl).
+  rewrite Hstrip.
+  assert (Hm : match p with
+               | [] => q_cur r
+               | n :: l => q_cur r ++ [({| c_ty := ty; c_indent := ind; c_str := n :: l |}, true)]
+               end = q_cur r ++ [({| c_ty := ty; c_indent := ind; c_str := p |}, true)]) by (destruct p; [congruence | reflexivity]).
+  rewrite Hm.
+  rewrite (jp_last_noflush o ty true st0 p Enl).
+  destruct (jp_noflush o ty true st0 p Enl) as (l' & hl & hc & Hjp & Hl').
+  set (A := join_piece o ty true false st0 p) in *.
+  assert (Hchunk : join_chunk o (mkChunk ty ind p) true false st = A).
+  { rewrite join_chunk_stable by exact Hst. unfold jchunk. subst st0. reflexivity. }
+  assert (HlineA : j_line A <> []) by (rewrite Hjp; cbn [with_line j_line]; apply Hl'; exact Hne).
+  assert (HindA : j_indent A <> None) by (rewrite Hjp; cbn [with_line j_indent]; subst st0; apply indent_set_indent).
+  assert (HtailA : tail_eq st0 A) by (rewrite Hjp; apply tail_with_line).
+  set (curf := q_cur r ++ [({| c_ty := ty; c_indent := ind; c_str := p |}, true)]).
+  assert (Hwf : wf_group curf).
+  { subst curf. split; [|split].
+    - apply wf_open_snoc; [exact Hopen|]. intros x Hx Hc. rewrite (Hpend x Hx Hc). apply text_eqb_nlfree. exact Enl.
+    - intros x Hx _. rewrite last_opt_snoc in Hx. injection Hx as <-. reflexivity.
+    - apply Forall_app. split; [exact Hcur|]. constructor; [|constructor]. split; cbn [fst c_str]; [exact Hst | exact Enl]. }
+  destruct (flush_cases o A) as [[l Hout] | [Ht Hb]].
+  - assert (Hlt : (List.length (j_out st0) <? List.length (j_out (flush_line o A))) = true).
+    { apply Nat.ltb_lt. rewrite Hout. destruct HtailA as (_&_&_&Ho). rewrite <- Ho. cbn [List.length]. lia. }
+    rewrite Hlt. cbn [q_groups q_st]. split; [apply Forall_app; split; [exact Hgroups | constructor; [exact Hwf | constructor]]|].
+    left. exists curf. split; [reflexivity|].
+    subst curf. rewrite run_cur_app. unfold replay in Hrep. rewrite Hrep. cbn [run_cur fold_left fst snd]. rewrite Hchunk.
+    apply final_nl_after_flush; assumption.
+  - assert (Hlt : (List.length (j_out st0) <? List.length (j_out (flush_line o A))) = false).
+    { apply Nat.ltb_ge. destruct Ht as (_&_&_&Ho). destruct HtailA as (_&_&_&Ho'). rewrite Ho, <- Ho'. lia. }
+    rewrite Hlt. cbn [q_groups q_st]. split; [exact Hgroups|]. right. split; [reflexivity|].
+    destruct Ht as (_&_&_&Ho). destruct HtailA as (_&_&_&Ho'). destruct Htail0 as (_&_&_&Ho''). congruence.
+Qed.
+
 (* ================================================================ the theorem *)
 Lemma q_st_fold : forall o c e l ps r,
   q_st (fold_left (rechunk_piece2 o c e l) ps r) = fold_left (join_piece o (c_ty c) e l) ps (q_st r).
@@ -690,15 +830,14 @@ Proof.
     rewrite nl_last_irrelevant by exact Hc. reflexivity.
 Qed.
 
-Definition ends_with_newline (cs : list chunk) : Prop :=
-  cs = [] \/ exists body f, cs = body ++ [f] /\ contains_nl (c_str f) = true.
-
 (* C13, line assembly, ALL chunk lists and options: describing the emitted lines as chunk lists and joining them again
    reproduces the lines *)
-Theorem rechunk2_fixed : forall cs o, all_stable cs -> ends_with_newline cs ->
-  join_lines (rechunk2 cs o) o = join_lines cs o.
+Theorem rechunk2_fixed : forall cs o, all_stable cs -> join_lines (rechunk2 cs o) o = join_lines cs o.
 Proof.
-  intros cs o Hs [-> | (body & f & -> & Hnl)]; [reflexivity|].
+  intros cs o Hs.
+  destruct cs as [|c0 cs'] eqn:Ecs; [reflexivity|].
+  assert (Hne : c0 :: cs' <> []) by discriminate.
+  destruct (exists_last Hne) as [body [f E]]. rewrite E in *. clear E Hne Ecs c0 cs'.
   apply Forall_app in Hs as [Hsb Hsf]. inversion Hsf as [|? ? Hf _]; subst.
   unfold join_lines, rechunk2. f_equal.
   pose proof (q_st_loop o (body ++ [f]) (mkR2 j_init [] [])) as Hq. cbn [q_st] in Hq. rewrite <- Hq. clear Hq.
@@ -707,7 +846,15 @@ Proof.
   { intros n Hn x Hx. discriminate. }
   set (R := rl_ctx o body [f] (mkR2 j_init [] [])) in *.
   rewrite rechunk_loop2_cons by exact Hf. cbn [rechunk_loop2 next_is_nl is_last].
-  destruct (final_step o f R Hinv Hf Hnl (Hp f eq_refl)) as [Hw [[g [Eg Hg]] | [Eg Hout]]].
+  assert (Hfinal : Forall wf_group (q_groups (rstep o f true true R)) /\
+            ((exists g, q_groups (rstep o f true true R) = q_groups R ++ [g] /\
+                        join_chunk o nlc true true (run_cur o g (run_groups o (q_groups R) j_init)) = q_st (rstep o f true true R)) \/
+             (q_groups (rstep o f true true R) = q_groups R /\
+              j_out (q_st (rstep o f true true R)) = j_out (run_groups o (q_groups R) j_init)))).
+  { destruct (contains_nl (c_str f)) eqn:Hnl.
+    - apply (final_step o f R Hinv Hf Hnl (Hp f eq_refl)).
+    - apply (final_step_nlfree o f R Hinv Hf Hnl (Hp f eq_refl)). }
+  destruct Hfinal as [Hw [[g [Eg Hg]] | [Eg Hout]]].
   - rewrite Eg in *. apply Forall_app in Hw as [Hw0 Hwg]. inversion Hwg; subst.
     rewrite second_run by assumption. rewrite Hg. reflexivity.
   - rewrite Eg in *. rewrite Hout. apply second_run_out; [exact Hw | apply Hinv].
@@ -716,18 +863,8 @@ Qed.
 Lemma stable_chunks_all : forall cs, stable_chunks cs = true -> all_stable cs.
 Proof. intros cs H. unfold stable_chunks in H. rewrite forallb_forall in H. apply Forall_forall. exact H. Qed.
 
-Lemma ends_with_nl_prop : forall cs, ends_with_nl cs = true -> ends_with_newline cs.
-Proof.
-  intros cs H. unfold ends_with_nl in H. destruct (rev cs) as [|f r] eqn:E.
-  - left. apply (f_equal (@rev chunk)) in E. rewrite rev_involutive in E. exact E.
-  - right. exists (rev r), f. split; [|exact H].
-    apply (f_equal (@rev chunk)) in E. rewrite rev_involutive in E. exact E.
-Qed.
-
 (* C13: line assembly is a fixed point of re-chunking, for ALL chunk lists and ALL options *)
-Theorem join_fixed : forall cs o, stable_chunks cs = true -> ends_with_nl cs = true ->
-  join_chunks (rechunk cs o) o = join_chunks cs o.
+Theorem join_fixed : forall cs o, stable_chunks cs = true -> join_chunks (rechunk cs o) o = join_chunks cs o.
 Proof.
-  intros cs o Hs He. unfold join_chunks, rechunk. f_equal.
-  apply rechunk2_fixed; [apply stable_chunks_all; exact Hs | apply ends_with_nl_prop; exact He].
+  intros cs o Hs. unfold join_chunks, rechunk. f_equal. apply rechunk2_fixed. apply stable_chunks_all. exact Hs.
 Qed.
